@@ -17,6 +17,14 @@ TRUSTED_BASE = [
 ]
 
 PROPS = {
+    "C02": {
+        "what": "rules of the fold (comparisons / logical operators yield 1 or 0 with the stated truthiness, DIVISION BY ZERO, TYPE MISMATCH, unary operators, ABS/INT, parentheses irrelevant), left-associative rendering, and the six operator tiers of the token-stream evaluator = the six precedence levels in the stated order",
+        "theorems": ["cmp_yields_bool", "cmp_mixed", "logical_ops", "truthiness", "division_by_zero", "arithmetic_mismatch", "unary_ops", "paren_irrelevant", "left_assoc_render", "tier_tables", "tier_order", "abs_int"],
+        "open": ["eval_render: for every tree e, the token-stream evaluator on render e ++ rest computes foldE e and stops before rest (proved for a reduced evaluator in notes/calibration-eval-render)"],
+        "slices": ["c02"],
+        "level_text": "Spec in Lean: Ref.foldE (value of a syntax tree, strict, left to right) and Ref.render (minimal parentheses). Machine-checked theorems about the fold's rules exactly as the property states them and about the evaluator's operator tiers (each tier accepts exactly the operators of one precedence level; nesting order OR < AND < comparison < +,- < *,/ < ^ < unary). The theorem tying the token-stream evaluator to the fold for EVERY tree (eval_render) is not yet proved for the full model; the check rests for it on the correspondence slice: all trees with 1-2 (thorough: part of 3) binary operators, all unary/binary pairings, random trees up to size 9 with and without redundant parentheses; text rendered by the Lean spec; implementation's PRINT vs model's PRINT vs the spec's fold (computed by the Lean driver).",
+        "level_note": "PARTIAL proof. Trusted: Lean kernel; NumOps (IEEE arithmetic, powf, Display) parameters; hand-written model validated by sampling.",
+    },
     "C04": {
         "what": "program store = finite map + ordered key set: both indexes agree after every edit history (invariant), an edit writes exactly its key (last writer wins, bare number deletes, failed tokenization changes nothing), LIST = stored lines ascending, `after` = least greater key for every n, RUN order = keys ascending, edits to different lines commute",
         "theorems": ["wf_empty", "get_set", "wf_set", "wf_reachable", "store_refines", "set_comm", "list_sorted", "after_least", "run_order", "submit_numbered", "submit_failed"],
